@@ -593,7 +593,9 @@ def serde_agreement(ctx, rule, save_q, load_q, table, ctor_names, positional=Non
                       f"helper {h.site()} restores `{name}` from `{key}`, which stores `{U(inner_s)[:60]}` (expected `{want}`)")
             continue
         if not isinstance(entry, str):
-            if not isinstance(e, ast.Tuple) or len(e.elts) <= entry[1]:
+            if isinstance(e, ast.Call) and U(e.func) in ("tuple", "list") and len(e.args) == 1 and isinstance(e.args[0], (ast.List, ast.Tuple)):
+                e = e.args[0]           # tuple([a, b]) restores the same components
+            if not isinstance(e, (ast.Tuple, ast.List)) or len(e.elts) <= entry[1]:
                 ctx.bad(rule, site, f"`{param}` is restored as `{U(e)[:80]}`, not as a tuple of stored components")
                 continue
             e = e.elts[entry[1]]
